@@ -91,7 +91,9 @@ func (o *MergeAndSortRulesOptimizer) Optimize(rules []*config_parser.RoutingRule
 		if len(mergingRule.AndFunctions) == 1 &&
 			len(rules[i].AndFunctions) == 1 &&
 			mergingRule.AndFunctions[0].Name == rules[i].AndFunctions[0].Name &&
-			mergingRule.AndFunctions[0].Not == rules[i].AndFunctions[0].Not &&
+			// Only non-negated conditions can be merged: values of one condition are
+			// alternatives, so `!f(a) -> X; !f(b) -> X` is NOT `!f(a, b) -> X`.
+			!mergingRule.AndFunctions[0].Not && !rules[i].AndFunctions[0].Not &&
 			rules[i].Outbound.String(true, false, true) == mergingRule.Outbound.String(true, false, true) {
 			mergingRule.AndFunctions[0].Params = append(mergingRule.AndFunctions[0].Params, rules[i].AndFunctions[0].Params...)
 		} else {
